@@ -65,7 +65,7 @@ class C14(Check):
             [1.0, 1.0, 0.5, 2.0]), a=sel, h=f(0.0, 1.0)))
         var = st.fixed_dictionaries(dict(type=st.sampled_from(VARTYPES), s=sel, scaled=st.booleans(), bounded=st.booleans(),
                                          axis=st.sampled_from(['x', 'y']),
-                                         bmode=st.sampled_from(['around', 'around', 'start_at_lower', 'start_at_upper'])))
+                                         bmode=st.sampled_from(['around', 'around', 'start_at_lower', 'start_at_upper', 'lower_only', 'upper_only'])))
         return st.fixed_dictionaries(dict(spec=GL.lens_spec(OPT, min_surfs=2), operands=st.lists(operand, min_size=1, max_size=3),
                                           variables=st.lists(var, min_size=1, max_size=3), opt=st.sampled_from(opts),
                                           pickup=st.booleans(), second=st.sampled_from(OPTIMIZERS[:3]),
@@ -124,7 +124,7 @@ class C14(Check):
             else:
                 cand = list(range(1, K + 1))
                 kw['axis'] = vd['axis']
-            cand = [k for k in cand if (vt, k) not in used and not (case['pickup'] and vt == 'radius' and k == self.pick_tgt)]
+            cand = [k for k in cand if (vt, k) not in used and not (case['pickup'] and vt == 'radius' and self.pick_tgt and k in self.pick_tgt)]
             if not cand:
                 continue
             k = cand[vd['s'] % len(cand)]
@@ -143,6 +143,11 @@ class C14(Check):
                     bm = 'around'      # scipy's global optimisers map x0 to the unit box and reject round-off outside it
                 kw['min_val'] = cur if bm == 'start_at_lower' else cur - span
                 kw['max_val'] = cur if bm == 'start_at_upper' else cur + span
+                # a bound on one side only (the local optimisers accept that)
+                if bm == 'lower_only':
+                    kw['min_val'], kw['max_val'] = cur - 0.1 * span, None
+                elif bm == 'upper_only':
+                    kw['min_val'], kw['max_val'] = None, cur + 0.1 * span
             quiet(prob.add_variable, o, vt, surface_number=k, apply_scaling=vd['scaled'], **kw)
         if not prob.variables:
             return None
@@ -176,8 +181,14 @@ class C14(Check):
                 src, tgt = fin[0], fin[-1]
                 o.pickups.add(src, 'radius', tgt, scale=-1.0, offset=0.0)
                 pick = (src, tgt)
-                self.pick_tgt = tgt
+                self.pick_tgt = {tgt}
                 out.cls('with_pickup')
+                if len(fin) >= 3:
+                    # a chain: the target of the first pickup is the source of a second one (added after it)
+                    o.pickups.add(tgt, 'radius', fin[1], scale=1.0, offset=0.0)
+                    pick = (src, tgt, fin[1])
+                    self.pick_tgt = {tgt, fin[1]}
+                    out.cls('with_chained_pickups')
         # optionally a marginal-ray-height solve keeps the image surface at the paraxial focus (no pickup needed for it)
         self.solve_on = bool(case.get('solve')) and spec['ap']['type'] == 'EPD' and \
             not any(v['type'] in ('tilt', 'decenter') for v in case['variables']) and \
@@ -191,8 +202,10 @@ class C14(Check):
             out.cls('no_applicable_variable_or_operand_undefined')
             return
         for v in prob.variables:
-            out.cls('var_' + v.type + ('_scaled' if v.apply_scaling else '_raw') + ('_bounded' if v.min_val is not None else ''))
-            if v.min_val is not None and (v.min_val == 0 or v.max_val == 0):
+            one_sided = (v.min_val is None) != (v.max_val is None)
+            out.cls('var_' + v.type + ('_scaled' if v.apply_scaling else '_raw') +
+                    ('_one_sided' if one_sided else ('_bounded' if v.min_val is not None else '')))
+            if (v.min_val is not None and v.min_val == 0) or (v.max_val is not None and v.max_val == 0):
                 out.cls('bound_exactly_zero')
         for op in prob.operands:
             out.cls('operand_' + op.type)
@@ -211,19 +224,19 @@ class C14(Check):
         for v in prob.variables:
             val = float(np.ravel(v.value)[0])
             b = v.bounds
-            if v.min_val is not None:
-                lo = float(v.variable.scale(v.min_val)) if v.apply_scaling else float(v.min_val)
-                hi = float(v.variable.scale(v.max_val)) if v.apply_scaling else float(v.max_val)
+            if v.min_val is not None or v.max_val is not None:
+                conv = (lambda x: float(v.variable.scale(x))) if v.apply_scaling else float
+                lo = conv(v.min_val) if v.min_val is not None else -math.inf
+                hi = conv(v.max_val) if v.max_val is not None else math.inf
                 self.ref_bounds[id(v)] = (min(lo, hi), max(lo, hi))
-                got_b = [math.nan if x is None else float(x) for x in b]
+                got_b = [(-math.inf if i == 0 else math.inf) if x is None else float(x) for i, x in enumerate(b)]
                 out.close('bounds_in_units_of_value', got_b, [lo, hi], rtol=1e-12, atol=1e-15,
                           vtype=v.type, scaled=v.apply_scaling, reported=[None if x is None else float(x) for x in b])
                 out.expect('start_value_within_bounds', min(lo, hi) - 1e-9 * (1 + abs(val)) <= val <= max(lo, hi) + 1e-9 * (1 + abs(val)),
                            vtype=v.type, scaled=v.apply_scaling, value=val, bounds=[lo, hi])
             v.update(val)
             out.close('variable_set_then_read', float(np.ravel(v.value)[0]), val, rtol=1e-12, atol=1e-15, vtype=v.type)
-        self.start_on_bound = any(id(v) in self.ref_bounds and float(np.ravel(v.value)[0]) in self.ref_bounds[id(v)]
-                                  for v in prob.variables)
+        self.start_on_bound = self.near_bound(prob)
         snap0 = lens_state(o)
         x_start = [float(np.ravel(v.value)[0]) for v in prob.variables]
         # 3. optimise
@@ -238,6 +251,7 @@ class C14(Check):
             # 4'. a second optimize() on the same optimizer object, then two undos: each undo takes back one run
             snap1 = lens_state(o)
             m1 = float(prob.sum_squared())
+            self.start_on_bound = self.near_bound(prob)      # the first run may have ended on a bound
             try:
                 res2, kind2 = self.run_opt(case['opt'], prob, reuse=True)
             except ValueError as e:
@@ -277,6 +291,16 @@ class C14(Check):
                 raise
             self.after_optimise(out, case['second'], prob, res2, kind2, m_undo, o, pick, tag='_second')
         out.nt(nfev >= 3 and moved > 1e-6)
+
+    def near_bound(self, prob):
+        """a current value within 1e-10 max(1, |bound|) of a bound: what scipy's least_squares treats as an active
+        constraint of the start point (and moves inside by that much before the first evaluation)"""
+        for v in prob.variables:
+            if id(v) in self.ref_bounds:
+                x = float(np.ravel(v.value)[0])
+                if any(math.isfinite(b) and abs(x - b) <= 1e-10 * max(1.0, abs(b)) for b in self.ref_bounds[id(v)]):
+                    return True
+        return False
 
     def run_opt(self, name, prob, reuse=False):
         """one optimize() call; reuse=True runs it on the optimizer object of the previous call"""
@@ -333,14 +357,16 @@ class C14(Check):
             if name == 'least_squares' and self.start_on_bound:
                 # scipy's trust-region solver first moves a start value that sits on a bound strictly inside it
                 # (relative step 1e-10) and may return that point
-                slack += sum((op.weight * 1e-8 * max(abs(op.target), self.Lsc)) ** 2 for op in prob.operands) + 1e-6 * m_start
+                d2 = sum((op.weight * 1e-8 * max(abs(op.target), self.Lsc)) ** 2 for op in prob.operands)
+                slack += 2 * math.sqrt(max(m_start, 0.0) * d2) + d2 + 1e-6 * m_start
             out.expect('not_worse_than_start' + tag, m_now <= m_start * (1 + 1e-9) + slack, start=m_start, now=m_now,
                        opt=name)
         for v, xv in zip(prob.variables, vals):
-            if v.min_val is not None:
+            if id(v) in self.ref_bounds:
                 # the bounds the user gave, in the units of the value (not what the library reports them to be)
                 lo, hi = self.ref_bounds[id(v)]
-                out.expect('within_bounds' + tag, lo - 1e-9 * (1 + abs(lo)) <= xv <= hi + 1e-9 * (1 + abs(hi)), value=xv,
+                out.expect('within_bounds' + tag, (lo == -math.inf or lo - 1e-9 * (1 + abs(lo)) <= xv) and
+                           (hi == math.inf or xv <= hi + 1e-9 * (1 + abs(hi))), value=xv,
                            bounds=[float(lo), float(hi)], vtype=v.type, opt=name)
         if self.solve_on:
             from vf.gen import samples as GS
@@ -355,6 +381,9 @@ class C14(Check):
             sg = o.surface_group
             out.close('pickup_satisfied_after_optimise' + tag, float(sg.radii[pick[1]]), -float(sg.radii[pick[0]]),
                       rtol=1e-12, opt=name)
+            if len(pick) == 3:
+                out.close('pickup_satisfied_after_optimise' + tag, float(sg.radii[pick[2]]), float(sg.radii[pick[1]]),
+                          rtol=1e-12, opt=name, link='second of the chain')
 
 
 CHECK = C14()
